@@ -58,9 +58,10 @@ class State:
 
 
 class FnAnalysis:
-    def __init__(self, eng, fn, param_rng=None):
+    def __init__(self, eng, fn, param_rng=None, seed=None):
         self.eng = eng
         self.fn = fn
+        self.seed = seed or {}   # {term over ('arg', i): (lo, hi)} assumed on entry (a stated input domain)
         self.ty = {}            # term -> integer type name
         self.entry = {}         # bb -> State
         self.visits = {}
@@ -613,6 +614,8 @@ class FnAnalysis:
             self._reg(v, self.local_ty(i + 1))
             if (i + 1) in self.param_rng:
                 st0.rng[v] = self.param_rng[i + 1]
+        for tm, r in self.seed.items():
+            st0.rng[tm] = r
         self.entry = {0: st0}
         work = [0]
         loops = fn.loops()
@@ -686,10 +689,10 @@ class Engine:
         self._tf = {}
         self.value_models = dict(VALUE_MODELS)
 
-    def analysis(self, path, param_rng=None):
-        key = (path, tuple(sorted((param_rng or {}).items())))
+    def analysis(self, path, param_rng=None, seed=None):
+        key = (path, tuple(sorted((param_rng or {}).items())), tuple(sorted((seed or {}).items(), key=repr)))
         if key not in self._an:
-            self._an[key] = FnAnalysis(self, self.prog.fn(path), param_rng)
+            self._an[key] = FnAnalysis(self, self.prog.fn(path), param_rng, seed)
         return self._an[key]
 
     def ret_range(self, path):
